@@ -93,6 +93,15 @@ Definition run_fl_mul (a : list Z) : list Z :=
   | _ => [-1]
   end.
 
+(* CMD conv_scale = 13 : pprod reduced(0/1) mi ei mw ew mo eo -> packed multiplier, packed shift, reference q, reference shift *)
+Definition run_conv_scale (a : list Z) : list Z :=
+  match a with
+  | p :: r :: mi :: ei :: mw :: ew :: mo :: eo :: nil =>
+      pair_list (conv_packed_scale p (negb (r =? 0)) (Dy mi ei) (Dy mw ew) (Dy mo eo)) ++
+      pair_list (tfl_conv_params p (Dy mi ei) (Dy mw ew) (Dy mo eo))
+  | _ => [-1]
+  end.
+
 Definition run (cmd : Z) (a : list Z) : list Z :=
   if cmd =? 1 then run_quantise_scale a
   else if cmd =? 2 then run_reduced_quantise_scale a
@@ -106,4 +115,5 @@ Definition run (cmd : Z) (a : list Z) : list Z :=
   else if cmd =? 10 then run_tfl_mul a
   else if cmd =? 11 then run_fl_div a
   else if cmd =? 12 then run_fl_mul a
+  else if cmd =? 13 then run_conv_scale a
   else [-1].
